@@ -30,4 +30,17 @@ Section Http.
       | None => None
       end
     end.
+
+  (** the same extractor instantiated with a user error type that renders the (same, first) report
+      as the response [resp m]: the rejection is exactly the error's own response *)
+  Definition extract_with (resp : string -> N * string) (t : ty) (fw : fw_outcome) : option ex_outcome :=
+    match fw with
+    | FwRej s b => Some (Rejected s b)
+    | FwDoc v =>
+      match deserialize_json_error t v with
+      | Some (inl o) => Some (Extracted o)
+      | Some (inr m) => Some (Rejected (fst (resp m)) (snd (resp m)))
+      | None => None
+      end
+    end.
 End Http.
